@@ -835,6 +835,10 @@ def call_method(I, recv, name, args, kwargs):
         return SDictItems(recv)
     if isinstance(recv, SDict) and recv.rest is not None and name in ("keys", "values"):
         raise Unsupported("keys()/values() of a dict with symbolic remainder")
+    if isinstance(recv, dict) and name == "get" and args and isinstance(args[0], (SV, SStr)) \
+            and all(isinstance(k, (str, int, bool)) or k is None for k in recv):
+        found, val = I.symbolic_key_lookup(SDict(dict(recv)), args[0])
+        return val if found else (args[1] if len(args) > 1 else kwargs.get("default"))
     if isinstance(recv, SDict) and recv.rest is None and name == "get" and args and isinstance(args[0], SV) \
             and all(isinstance(k, (str, int, bool)) or k is None for k in recv.items):
         # a dynamically typed key: python's hashing rules (unhashable containers raise, True == 1, ...)
